@@ -105,6 +105,17 @@ def main():
         sys.exit(2)
     if a.replay:
         entry = json.load(open(a.replay))
+        if entry.get("tier") == "A" and entry.get("native_witness"):
+            # re-run the native evaluation of the kernel contracts on the real function and look for the same failing case
+            wit = os.path.join("/tmp", f"replay-{os.getpid()}.json")
+            subprocess.run(["/venv/bin/python", os.path.join(HERE, "selftest", "crosscheck.py"), "--json", wit], cwd=HERE, capture_output=True, text=True,
+                           env=dict(os.environ, PYTHONPATH=f"{HERE}:{REPO}", VERIF_REPO=REPO), timeout=600)
+            hits = json.load(open(wit))
+            os.remove(wit)
+            w = entry["native_witness"]
+            same = [h for h in hits if h["function"] == w["function"] and h["args"] == w["args"] and h["clause"] == w["clause"]]
+            print(json.dumps({"violated": bool(same), "observed": same[0] if same else "the recorded input satisfies the contract on this tree"}, indent=1))
+            sys.exit(1 if same else 0)
         if entry.get("tier") == "A":
             print(json.dumps({k: entry[k] for k in ("key", "what", "function") if k in entry}, indent=1))
             print("tier-A obligation: re-run the check to re-derive it; solver output is in the replay file")
@@ -213,6 +224,27 @@ def main():
             violations.append(dict(v, tier="B"))
             nb_viol += 1
 
+    # Refuted obligations of the executor kernels (scalar / small-tuple arguments): look for a concrete failing input by
+    # evaluating the SAME contract clauses natively on the real function over its exhaustive small domain
+    # (selftest/crosscheck.py); a hit makes the violation replayable on the real code instead of no-failing-input-found.
+    kernel_viol = [v for v in violations if v.get("tier") == "A" and v.get("no_failing_input") and "sqlglot/executor/env.py:" in v.get("function", "")]
+    if kernel_viol:
+        wit = os.path.join(common.REPLAY_DIR, f"{prop}-kernel-witnesses.json")
+        os.makedirs(common.REPLAY_DIR, exist_ok=True)
+        subprocess.run(["/venv/bin/python", os.path.join(HERE, "selftest", "crosscheck.py"), "--json", wit], cwd=HERE, capture_output=True, text=True,
+                       env=dict(os.environ, PYTHONPATH=f"{HERE}:{REPO}", VERIF_REPO=REPO), timeout=600)
+        try:
+            hits = json.load(open(wit))
+        except (OSError, ValueError):
+            hits = []
+        for v in kernel_viol:
+            base_name = v["function"].split(":", 1)[1].split(".")[0].split("#")[0]  # sql_and, null_if_any, filter_nulls
+            mine = [h for h in hits if h["function"].split("#")[0].split("(")[0] == base_name]
+            if mine:
+                h = mine[0]
+                v["no_failing_input"] = False
+                v["native_witness"] = h
+                v["what"] += f" | failing input on the real function: {base_name}{h['args']} -> {h['result']} violates `{h['clause'][:120]}`"
     # a tier-A refutation with a concrete tier-B failing input for the same property is not "no-failing-input-found"
     new = common.report(prop, violations)
 
